@@ -20,11 +20,13 @@ static void addq(word* c, const word* a, const word* b, const word* q) { word t[
 static void subq(word* c, const word* a, const word* b, const word* q) { word t[NW]; if (r_sub(c, a, b, NW, 0)) { r_add(t, c, q, NW, 0); r_copy(c, t, NW); } }
 static void redq(word* h, const word* q) { word t[NW]; if (r_cmp(h, q, NW) >= 0) { r_sub(t, h, q, NW, 0); r_copy(h, t, NW); } }
 
-#define PROLOGUE \
-	V_IN(bign_params, params); V_IN_ARR(octet, oid, OIDMAX); V_IN(size_t, oid_len); V_IN_ARR(octet, hash, NO); \
-	word q[NW]; int operable; \
-	V_ASSUME(params.l == L && oid_len <= OIDMAX); \
+#define PROLOGUE0 \
+	V_IN(bign_params, params); word q[NW]; int operable; \
+	V_ASSUME(params.l == L); \
 	operable = bignIsOperable(&params); ld(q, params.q, NO)
+#define PROLOGUE \
+	PROLOGUE0; V_IN_ARR(octet, oid, OIDMAX); V_IN(size_t, oid_len); V_IN_ARR(octet, hash, NO); \
+	V_ASSUME(oid_len <= OIDMAX)
 #define STATE_RULES(code) \
 	V_ASSERT(!E.created || E.closed, "the state is closed on every path"); \
 	V_ASSERT(!E.close_bad, "the state is closed once"); \
@@ -104,4 +106,118 @@ void h_sign(void)
 		V_ASSERT(r_cmp(u, q, NW) < 0, "s1 < q");
 	}
 	V_CANARY("flow sign");
+}
+
+/* exported point == the two coordinates of the curve-arithmetic result, written to out, out + no */
+#define EXPORTED(out, src) \
+	(E.nto == 2 && eqw(E.to_in[0], (src), NW) && eqw(E.to_in[1], (src) + NW, NW) && \
+	 eqo((out), E.to_val[0], NO) && eqo((out) + NO, E.to_val[1], NO))
+
+void h_keypairgen(void)
+{
+	PROLOGUE0;
+	V_IN(int, have_rng); V_IN(size_t, rng_state);
+	V_BUF(octet, privkey, NO); V_BUF(octet, pubkey, 2 * NO);
+	word d[NW]; err_t code; int fav;
+	gen_i rng = have_rng ? rng_stub : 0;
+	code = bignKeypairGen(privkey, pubkey, &params, rng, (void*)rng_state);
+	STATE_RULES(code);
+	fav = operable && rng != 0 && E.created && E.start_ret == 1 && E.nrand == 1 && E.rand_ret && E.nmul == 1 && E.mul_ret;
+	V_ASSERT(code == ERR_OK ? fav : 1, "bignKeypairGen succeeds only with a generator and 0 < d < q");
+	V_ASSERT(code != ERR_OK ? !fav : 1, "bignKeypairGen succeeds whenever its inputs are admissible");
+	V_ASSERT(E.nrand == 0 || (E.rand_mod == E.order && E.rand_n == NW && E.rand_rng == rng && E.rand_state == (void*)rng_state),
+		"d is drawn modulo q (the group order) with the caller's generator");
+	if (code == ERR_OK)
+	{
+		ld(d, privkey, NO);
+		V_ASSERT(eqw(d, E.rand_val, NW) && !r_iszero(d, NW) && r_cmp(d, q, NW) < 0, "the private key returned is the value drawn, 0 < d < q");
+		V_ASSERT(E.mul_ec == (const void*)E.ec && E.mul_a == E.base && eqw(E.mul_aval, E.base_val, 2 * NW) && E.mul_m == NW && eqw(E.mul_d, d, NW), "Q = d G");
+		V_ASSERT(EXPORTED(pubkey, E.mul_out), "the public key returned is <Q_x>_2l || <Q_y>_2l");
+	}
+	V_CANARY("flow keypairgen");
+}
+
+void h_keypairval(void)
+{
+	PROLOGUE0;
+	V_IN_ARR(octet, privkey, NO); V_IN_ARR(octet, pubkey, 2 * NO);
+	word d[NW]; err_t code; int fav, range;
+	code = bignKeypairVal(&params, privkey, pubkey);
+	STATE_RULES(code);
+	ld(d, privkey, NO);
+	range = !r_iszero(d, NW) && r_cmp(d, q, NW) < 0;
+	fav = operable && E.created && E.start_ret == 1 && range && E.nmul == 1 && E.mul_ret && EXPORTED(pubkey, E.mul_out);
+	V_ASSERT(code == ERR_OK ? fav : 1, "bignKeypairVal accepts only 0 < d < q with pubkey == export(d G)");
+	V_ASSERT(code != ERR_OK ? !fav : 1, "bignKeypairVal accepts every pair with 0 < d < q and pubkey == export(d G)");
+	V_ASSERT((E.created && E.start_ret == 1 && operable && !range) ? code == ERR_BAD_PRIVKEY : 1, "d = 0 or d >= q is ERR_BAD_PRIVKEY");
+	if (E.nmul)
+		V_ASSERT(E.mul_ec == (const void*)E.ec && E.mul_a == E.base && eqw(E.mul_aval, E.base_val, 2 * NW) && E.mul_m == NW && eqw(E.mul_d, d, NW), "Q = d G");
+	V_CANARY("flow keypairval");
+}
+
+void h_pubkeyval(void)
+{
+	PROLOGUE0;
+	V_IN_ARR(octet, pubkey, 2 * NO);
+	err_t code; int fav;
+	code = bignPubkeyVal(&params, pubkey);
+	STATE_RULES(code);
+	fav = operable && E.created && E.start_ret == 1 && E.nfrom == 2 && E.from_ret[0] && E.from_ret[1] && E.nison == 1 && E.ison_ret;
+	V_ASSERT(code == ERR_OK ? fav : 1, "bignPubkeyVal accepts only in-range coordinates of a point on the curve");
+	V_ASSERT(code != ERR_OK ? !fav : 1, "bignPubkeyVal accepts every in-range point on the curve");
+	if (E.nfrom >= 1) V_ASSERT(E.from_src[0] == pubkey, "x imported from pubkey");
+	if (E.nfrom >= 2) V_ASSERT(E.from_src[1] == pubkey + NO, "y imported from pubkey + no");
+	if (E.nison) V_ASSERT(eqw(E.ison_val, E.from_val[0], NW) && eqw(E.ison_val + NW, E.from_val[1], NW), "the curve equation is checked on the imported point");
+	V_CANARY("flow pubkeyval");
+}
+
+void h_pubkeycalc(void)
+{
+	PROLOGUE0;
+	V_IN_ARR(octet, privkey, NO); V_BUF(octet, pubkey, 2 * NO);
+	word d[NW]; err_t code; int fav, range;
+	code = bignPubkeyCalc(pubkey, &params, privkey);
+	STATE_RULES(code);
+	ld(d, privkey, NO);
+	range = !r_iszero(d, NW) && r_cmp(d, q, NW) < 0;
+	fav = operable && E.created && E.start_ret == 1 && range && E.nmul == 1 && E.mul_ret;
+	V_ASSERT(code == ERR_OK ? fav : 1, "bignPubkeyCalc succeeds only for 0 < d < q");
+	V_ASSERT(code != ERR_OK ? !fav : 1, "bignPubkeyCalc succeeds for every 0 < d < q");
+	if (code == ERR_OK)
+	{
+		V_ASSERT(E.mul_ec == (const void*)E.ec && E.mul_a == E.base && eqw(E.mul_aval, E.base_val, 2 * NW) && E.mul_m == NW && eqw(E.mul_d, d, NW), "Q = d G");
+		V_ASSERT(EXPORTED(pubkey, E.mul_out), "the public key returned is <Q_x>_2l || <Q_y>_2l");
+	}
+	V_CANARY("flow pubkeycalc");
+}
+
+void h_dh(void)
+{
+	PROLOGUE0;
+	V_IN_ARR(octet, privkey, NO); V_IN_ARR(octet, pubkey, 2 * NO); V_IN(size_t, key_len);
+	word d[NW]; err_t code; int fav, range; size_t j;
+	V_ASSUME(key_len <= 2 * NO + 1);
+	{
+	V_TAIL(octet, key, key_len, 2 * NO + 1);
+	code = bignDH(key, &params, privkey, pubkey, key_len);
+	STATE_RULES(code);
+	ld(d, privkey, NO);
+	range = !r_iszero(d, NW) && r_cmp(d, q, NW) < 0;
+	fav = operable && E.created && E.start_ret == 1 && key_len <= 2 * NO && range &&
+		E.nfrom == 2 && E.from_ret[0] && E.from_ret[1] && E.nison == 1 && E.ison_ret && E.nmul == 1 && E.mul_ret;
+	V_ASSERT(code == ERR_OK ? fav : 1, "bignDH succeeds only for 0 < d < q and an in-range public key on the curve");
+	V_ASSERT(code != ERR_OK ? !fav : 1, "bignDH succeeds whenever its inputs are admissible");
+	if (E.nison) V_ASSERT(eqw(E.ison_val, E.from_val[0], NW) && eqw(E.ison_val + NW, E.from_val[1], NW) && E.from_src[0] == pubkey && E.from_src[1] == pubkey + NO,
+		"the curve equation is checked on the imported public key");
+	if (code == ERR_OK)
+	{
+		int same = 1;
+		V_ASSERT(E.mul_ec == (const void*)E.ec && eqw(E.mul_aval, E.from_val[0], NW) && eqw(E.mul_aval + NW, E.from_val[1], NW) && E.mul_m == NW && eqw(E.mul_d, d, NW), "shared point = d Q");
+		V_ASSERT(E.nto == (key_len > NO ? 2 : 1) && eqw(E.to_in[0], E.mul_out, NW) && (E.nto < 2 || eqw(E.to_in[1], E.mul_out + NW, NW)), "the coordinates of d Q are exported");
+		for (j = 0; j < 2 * NO; ++j)
+			if (j < key_len) same &= key[j] == (j < NO ? E.to_val[0][j] : E.to_val[1][j - NO]);
+		V_ASSERT(same, "key = first key_len octets of <x>_2l || <y>_2l");
+	}
+	}
+	V_CANARY("flow dh");
 }
